@@ -36,7 +36,9 @@ type GeneratorInterceptor struct {
 
 	interval           time.Duration
 	streams            sync.Map
-	immediatePLINeeded chan []uint32
+	immediatePLINeeded chan struct{}
+	pendingPLIs        []uint32
+	pendingPLIsMu      sync.Mutex
 
 	log           logging.LeveledLogger
 	loggerFactory logging.LoggerFactory
@@ -50,7 +52,7 @@ type GeneratorInterceptor struct {
 func NewGeneratorInterceptor(opts ...GeneratorOption) (*GeneratorInterceptor, error) {
 	generatorInterceptor := &GeneratorInterceptor{
 		interval:           3 * time.Second,
-		immediatePLINeeded: make(chan []uint32, 1),
+		immediatePLINeeded: make(chan struct{}, 1),
 		close:              make(chan struct{}),
 	}
 
@@ -122,7 +124,12 @@ func (r *GeneratorInterceptor) loop(rtcpWriter interceptor.RTCPWriter) {
 
 	for {
 		select {
-		case ssrcs := <-r.immediatePLINeeded:
+		case <-r.immediatePLINeeded:
+			r.pendingPLIsMu.Lock()
+			ssrcs := r.pendingPLIs
+			r.pendingPLIs = nil
+			r.pendingPLIsMu.Unlock()
+
 			r.writePLIs(rtcpWriter, ssrcs)
 
 		case <-tickerChan:
@@ -203,8 +210,17 @@ func (r *GeneratorInterceptor) BindRTCPReader(reader interceptor.RTCPReader) int
 
 // ForcePLI sends a PLI request to the tracks matching the provided SSRCs.
 func (r *GeneratorInterceptor) ForcePLI(ssrc ...uint32) {
+	// never blocks the caller: the request is queued and the loop is woken up
+	// (it drains the queue as soon as it runs, also when it is started later)
+	if r.isClosed() {
+		return
+	}
+	r.pendingPLIsMu.Lock()
+	r.pendingPLIs = append(r.pendingPLIs, ssrc...)
+	r.pendingPLIsMu.Unlock()
+
 	select {
-	case r.immediatePLINeeded <- ssrc:
-	case <-r.close:
+	case r.immediatePLINeeded <- struct{}{}:
+	default:
 	}
 }
